@@ -146,6 +146,9 @@ impl<K: Clone + PartialEq + Eq + Hash + std::fmt::Debug + std::cmp::PartialOrd, 
                 vec.push((k, Arc::clone(value)));
             }
         }
+        // verification hook: iteration order becomes a function of content
+        #[cfg(feature = "verif-hooks")]
+        crate::verif::sort_by_key(&mut vec, |e| &e.0);
         vec
     }
 
@@ -153,6 +156,30 @@ impl<K: Clone + PartialEq + Eq + Hash + std::fmt::Debug + std::cmp::PartialOrd, 
         &self,
         map: &mut std::sync::RwLockWriteGuard<HashMap<K, AsyncLruCacheEntry<V>>>,
     ) -> Option<(K, AsyncLruCacheEntry<V>)> {
+        // verification hook: break lru ties by key instead of by hash order
+        #[cfg(feature = "verif-hooks")]
+        {
+            let mut keys: Vec<K> = map.keys().cloned().collect();
+            crate::verif::sort_by_key(&mut keys, |k| k);
+            let pick = |in_use_ok: bool| {
+                let mut best: Option<(usize, K)> = None;
+                for k in keys.iter() {
+                    let e = map.get(k).unwrap();
+                    if !in_use_ok && Arc::strong_count(e) > 1 {
+                        continue;
+                    }
+                    let l = e.lru.load(Ordering::Relaxed);
+                    if best.as_ref().map_or(true, |b| l < b.0) {
+                        best = Some((l, k.clone()));
+                    }
+                }
+                best.map(|b| b.1)
+            };
+            let key = pick(false).or_else(|| pick(true))?;
+            let entry = map.remove(&key).unwrap();
+            return Some((key, entry));
+        }
+        #[allow(unreachable_code)]
         let (_, mut key_out) =
             map.iter()
                 .fold((usize::MAX, None), |(minl, key_out), (key, entry)| {
@@ -191,6 +218,34 @@ impl<K: Clone + PartialEq + Eq + Hash + std::fmt::Debug + std::cmp::PartialOrd, 
             let entry = map.remove(&key).unwrap();
             Some((key.clone(), entry))
         }
+    }
+}
+
+#[cfg(feature = "verif-hooks")]
+impl<K: Clone + PartialEq + Eq + Hash + std::fmt::Debug + std::cmp::PartialOrd, V>
+    AsyncLruCache<K, V>
+{
+    /// look an entry up without touching its lru stamp
+    pub(crate) fn verif_peek(&self, key: &K) -> Option<AsyncLruCacheEntry<V>> {
+        self.rmap.read().unwrap().get(key).map(Arc::clone)
+    }
+
+    /// (key, entry, lru stamp, users besides the map) sorted by key, and wmap length
+    pub(crate) fn verif_entries(&self) -> (Vec<(K, AsyncLruCacheEntry<V>, usize, usize)>, usize) {
+        let map = self.rmap.read().unwrap();
+        let mut v: Vec<_> = map
+            .iter()
+            .map(|(k, e)| {
+                (
+                    k.clone(),
+                    Arc::clone(e),
+                    e.lru.load(Ordering::Relaxed),
+                    Arc::strong_count(e) - 1,
+                )
+            })
+            .collect();
+        v.sort_by(|a, b| a.0.partial_cmp(&b.0).unwrap());
+        (v, self.wmap.lock().unwrap().len())
     }
 }
 
